@@ -615,6 +615,7 @@ pub fn c18(ctx: &mut Ctx) {
         }
     }
     c18_entry_points(ctx, &bases);
+    byzantine_shapes(ctx, "C18");
 }
 
 /// The three other entry points named by the property, taken alone.
@@ -775,8 +776,63 @@ pub fn c17(ctx: &mut Ctx) {
             }
         }
     }
+    byzantine_shapes(ctx, "C17");
     ctx.stats.extra.insert("max_honest_ticks_over_budget".into(), json!(max_ratio_ticks));
     ctx.stats.extra.insert("max_honest_bytes_over_budget".into(), json!(max_ratio_bytes));
+}
+
+/// Complete, self-consistent ToyLayout proofs under configurations that violate one declared bound
+/// (the prover re-grinds the proof of work for the out-of-bounds shape, which a fault on a
+/// recorded proof cannot): they must end in an error, within the work budget, without a panic.
+fn byzantine_shapes(ctx: &mut Ctx, property: &str) {
+    use crate::toyprover::{self, Cheat, ToyParams};
+    let scenario = if property == "C17" { "c17.byzantine-shape" } else { "c18.byzantine-shape" };
+    let mut kinds: Vec<&str> = toyprover::BAD_SHAPES_QUICK.to_vec();
+    if !ctx.is_quick() {
+        kinds.extend(toyprover::BAD_SHAPES_THOROUGH);
+    }
+    let reps = if ctx.is_quick() { 2 } else { 12 };
+    let mut unit = 3_000_000u64;
+    for kind in kinds {
+        for r in 0..reps {
+            let mine = ctx.mine(unit);
+            unit += 1;
+            if !mine {
+                continue;
+            }
+            ctx.begin_run(scenario, unit);
+            let mut rng = Rng::derive(ctx.seed, scenario, unit * 31 + r);
+            let params = ToyParams::draw(&mut rng, true);
+            let cheat = Cheat::BadShape { kind: kind.to_string() };
+            let art = match toyprover::prove(&params, &cheat) {
+                Ok(a) => a,
+                Err(e) => ctx.harness_error(&format!("byzantine shape prover failed: {e} kind={kind} params={params:?}")),
+            };
+            let image = serde_json::to_value(&art.proof).unwrap();
+            let s = proofrun::scalar_count(&image);
+            let (bt, bb) = c17_budget(s, "toy");
+            let run = proofrun::run_proof("toy", &art.proof, art.security, if property == "C17" { bt } else { bt * 4 });
+            ctx.stats.evaluations += 1;
+            ctx.stats.fired(&format!("byzantine-shape:{kind}"));
+            ctx.stats.state(format!("toy|byzantine-shape|{kind}|{}", run.outcome.class()));
+            let spec = json!({"kind": "toy", "params": params, "cheat": cheat});
+            let base = Base { name: format!("toy-byzantine:{kind}"), layout: "toy".into(), image, security: art.security, spec };
+            match (&run.outcome, property) {
+                (Outcome::Panic { loc, .. }, "C18") => {
+                    let class = format!("C18|panic|{}", crate::monitor::short_loc(loc));
+                    let rep = replay_envelope("C18", scenario, &ctx.variant, replay_body(&base, &[], "panic", &run.outcome, json!({"shape": kind})));
+                    ctx.violation(&class, &format!("{} for a self-consistent proof under out-of-bounds shape {kind}", run.outcome.describe()), rep);
+                }
+                (o, "C17") if matches!(o, Outcome::Overwork { .. }) || run.bytes > bb => {
+                    let what = if let Outcome::Overwork { site, .. } = o { format!("ticks@{site}") } else { "bytes".into() };
+                    let class = format!("C17|overwork|{what}|byzantine-shape:{kind}");
+                    let rep = replay_envelope("C17", scenario, &ctx.variant, replay_body(&base, &[], "overwork", &run.outcome, json!({"shape": kind, "ticks": run.ticks, "budget_ticks": bt, "bytes": run.bytes, "budget_bytes": bb})));
+                    ctx.violation(&class, &format!("work exceeds the linear budget for out-of-bounds shape {kind}: ticks {} / {bt}, bytes {} / {bb}", run.ticks, run.bytes), rep);
+                }
+                _ => {}
+            }
+        }
+    }
 }
 
 // ------------------------------------------------------------------------------------------
